@@ -26,9 +26,6 @@ abbrev Fuel (α : Type) := ExceptT Panic Option α
 /-- The fuel ran out. -/
 def outOfFuel {α : Type} : Fuel α := ExceptT.mk none
 
-/-- `a + b` on `uint`: wraps modulo 2^64. -/
-def uadd (a b : Nat) : Nat := (a + b) % 2 ^ 64
-
 /-- `uint(len(xs))`. -/
 def ulen {α : Type} (xs : List α) : Nat := xs.length
 
